@@ -755,6 +755,28 @@ package jrpc2
 //@   ensures[C04:no-id] result1 == nil ==> result0 != nil && result0.ID == nil && len(result0.ID) == 0 && result0.M == method
 //@   ensures result1 != nil ==> result0 == nil
 
+// Counting (C04, C18). cntCalls(a, n): how many of the first n specs are calls
+// (not notifications); cntIDs(h, a, n): how many of the first n messages carry
+// an id, h being the contents of the ID field. Both are defined by recursion on
+// n; the third axiom of each (the value depends only on the first n entries) is
+// their induction consequence, whose step is checked as a lemma below.
+//@ spec cntCalls(arr.jrpc2.Spec, Int) Int
+//@ axiom forall(a arr.jrpc2.Spec, n Int, n <= 0 ==> cntCalls(a, n) == 0)
+//@ axiom forall(a arr.jrpc2.Spec, n Int, n > 0 ==> cntCalls(a, n) == cntCalls(a, n - 1) + (a[n - 1].Notify ? 0 : 1))
+//@ axiom[by:cntCallsPrefixStep] forall(a arr.jrpc2.Spec, b arr.jrpc2.Spec, n Int, forall(i Int, 0 <= i && i < n ==> a[i].Notify == b[i].Notify) ==> cntCalls(a, n) == cntCalls(b, n))
+//@ lemma[C04] cntCallsPrefixStep(a arr.jrpc2.Spec, b arr.jrpc2.Spec, n Int)
+//@   requires forall(i Int, 0 <= i && i < n ==> a[i].Notify == b[i].Notify)
+//@   requires n > 0 ==> (forall(i Int, 0 <= i && i < n - 1 ==> a[i].Notify == b[i].Notify) ==> cntCalls(a, n - 1) == cntCalls(b, n - 1))
+//@   ensures cntCalls(a, n) == cntCalls(b, n)
+//@ spec cntIDs(ArrSlice, arr.*jrpc2.jmessage, Int) Int
+//@ axiom forall(h ArrSlice, a arr.*jrpc2.jmessage, n Int, n <= 0 ==> cntIDs(h, a, n) == 0)
+//@ axiom forall(h ArrSlice, a arr.*jrpc2.jmessage, n Int, n > 0 ==> cntIDs(h, a, n) == cntIDs(h, a, n - 1) + (len(h[a[n - 1]]) > 0 ? 1 : 0))
+//@ axiom[by:cntIDsPrefixStep] forall(h ArrSlice, g ArrSlice, a arr.*jrpc2.jmessage, b arr.*jrpc2.jmessage, n Int, forall(i Int, 0 <= i && i < n ==> (len(h[a[i]]) > 0) == (len(g[b[i]]) > 0)) ==> cntIDs(h, a, n) == cntIDs(g, b, n))
+//@ lemma[C04] cntIDsPrefixStep(h ArrSlice, g ArrSlice, a arr.*jrpc2.jmessage, b arr.*jrpc2.jmessage, n Int)
+//@   requires forall(i Int, 0 <= i && i < n ==> (len(h[a[i]]) > 0) == (len(g[b[i]]) > 0))
+//@   requires n > 0 ==> (forall(i Int, 0 <= i && i < n - 1 ==> (len(h[a[i]]) > 0) == (len(g[b[i]]) > 0)) ==> cntIDs(h, a, n - 1) == cntIDs(g, b, n - 1))
+//@   ensures cntIDs(h, a, n) == cntIDs(g, b, n)
+
 // send: nothing is transmitted once the client has stopped; the one Send
 // happens under the lock; pending entries are filed only after a successful
 // Send, each under its own id, in request order, one per request with an id.
@@ -767,9 +789,11 @@ package jrpc2
 //@   ensures[C04:pends] result1 == nil ==> len(result0) <= len(reqs) && forall(i int, 0 <= i && i < len(result0) ==> result0[i] != nil && result0[i].ch != nil && result0[i].cancel != nil && slotId(result0[i].ch) == result0[i].id)
 //@   ensures[C05:error-no-pending] result1 != nil ==> result0 == nil
 //@   ensures[C04:one-per-request] result1 == nil && forall(i int, 0 <= i && i < len(reqs) ==> len(reqs[i].ID) > 0) ==> len(result0) == len(reqs)
+//@   ensures[C04:one-per-id] result1 == nil ==> len(result0) == cntIDs(fieldarr("jmessage", "ID"), elems(reqs), len(reqs))
 //@   ensures[C05:stopped-fails] !called("call.Send#1") ==> result1 != nil && forall(ch Iface, chSends(ch) == old(chSends(ch)))
 //@   loop 1 invariant len(pends) == len(pctxs) && len(pends) <= rangeindex + 1
 //@   loop 1 invariant forall(j int, 0 <= j && j <= rangeindex ==> len(reqs[j].ID) > 0) ==> len(pends) == rangeindex + 1
+//@   loop 1 invariant len(pends) == cntIDs(fieldarr("jmessage", "ID"), elems(reqs), rangeindex + 1)
 //@   loop 1 invariant forall(i int, 0 <= i && i < len(pends) ==> pends[i] != nil && isnew(pends[i]) && allocated(pends[i]) && isnew(pends[i].ch) && allocated(pends[i].ch))
 //@   loop 1 invariant forall(i int, 0 <= i && i < len(pends) ==> slotOpen(pends[i]))
 //@   loop 1 invariant forall(i int, 0 <= i && i < len(pends) ==> slotId(pends[i].ch) == pends[i].id)
@@ -870,11 +894,17 @@ package jrpc2
 
 //@ func (*Client).Batch
 //@   requires wfClient(c) && !held(fieldaddr(c, mu)) && ctx != nil
-//@   modifies monitor(Client, c), held(fieldaddr(c, mu)), chSends, slotId, Response.err, Response.result, fired
+//@   modifies monitor(Client, c), held(fieldaddr(c, mu)), chSends, slotId, Response.err, Response.result, fired, clientBatches
 //@   ensures[C04:at-most-one-per-spec] result1 == nil ==> len(result0) <= len(specs) && forall(i int, 0 <= i && i < len(result0) ==> result0[i] != nil)
 //@   ensures[C05:error-no-responses] result1 != nil ==> result0 == nil
+//@   ensures[C04:one-per-call] result1 == nil ==> len(result0) == cntCalls(elems(specs), len(specs))
+//@   at return#1 ghostset clientBatches = clientBatches + 1
+//@   at return#2 ghostset clientBatches = clientBatches + 1
+//@   at return#3 ghostset clientBatches = clientBatches + 1
+//@   ensures[C18:counted] clientBatches == old(clientBatches) + 1
 //@   ensures !held(fieldaddr(c, mu))
 //@   loop 1 invariant !held(fieldaddr(c, mu)) && forall(j int, 0 <= j && j < rangeindex + 1 ==> reqs[j] != nil && !(len(reqs[j].ID) == 4 && str(reqs[j].ID)[0] == 'n'))
+//@   loop 1 invariant cntIDs(fieldarr("jmessage", "ID"), elems(reqs), rangeindex + 1) == cntCalls(elems(specs), rangeindex + 1)
 //@   loop 2 invariant !held(fieldaddr(c, mu))
 
 //@ func (*Client).Notify
@@ -909,3 +939,10 @@ package jrpc2
 //@   requires !held(fieldaddr(c, mu))
 //@   modifies stopHooks
 //@   ensures[C05:one-stop-hook] stopHooks == old(stopHooks) + 1
+
+// ParseRequests: an error means no requests; otherwise one non-nil entry per
+// message, in order.
+//@ func ParseRequests
+//@   ensures[C18:error-no-requests] result1 != nil ==> result0 == nil
+//@   ensures[C18:members] forall(i int, 0 <= i && i < len(result0) ==> result0[i] != nil)
+//@   loop 1 invariant len(out) == len(reqs) && forall(k int, 0 <= k && k <= rangeindex ==> out[k] != nil)
